@@ -452,10 +452,12 @@ NESTED = [("twitter", "twitter.com/", ["#!", "#!/", "?a#!", "#!//", "x/"], "x"),
 
 
 def _nested(acc, shard, nshards, seed, tier):
+    # depth bounded so that one evaluation stays far from the hang guard even on a loaded machine: following a chain of n redirections rescans
+    # the remaining url at every step (quadratic, ~10 s for n = 3000); a 6000-deep chain took > 180 s under load and was reported as a hang
     idx = 0
     for plat, head, reps, tail in NESTED:
         for rep in reps:
-            for times in ((2, 30, 1200) if tier == "quick" else (2, 30, 1200, 6000)):
+            for times in ((2, 30, 1200) if tier == "quick" else (2, 30, 1200, 3000)):
                 for opts in ({"allow_relative_urls": False, "fix_common_mistakes": True}, {"allow_relative_urls": True, "fix_common_mistakes": False}):
                     idx += 1
                     if idx % nshards != shard:
@@ -490,7 +492,7 @@ def campaigns(tier, seed):
     cs += [Campaign("wellformed-" + p, _seeds, "enumeration", exhaustive=True, shards=4,
                     bounds="%d well-formed %s URLs x %d hosts x options" % (len(SEEDS[p]), p, len(SPEC[p]["hosts"])), params={"platform": p}) for p in SPEC]
     cs.append(Campaign("nested-constructions", _nested, "enumeration", exhaustive=True,
-                       bounds="routing / redirect prefixes of every platform repeated 2..1200 (quick) / ..6000 (thorough) times, default recursion limit"))
+                       bounds="routing / redirect prefixes of every platform repeated 2..1200 (quick) / ..3000 (thorough) times, default recursion limit"))
     cs.append(Campaign("platform-coverage-guided", F.fuzz_campaign("platform", runs=(2500, 150000), max_len=80, dictionary=FUZZ_DICT), F.ENGINE,
                        bounds="libFuzzer over UTF-8 strings <= 80 bytes through every function of the six platform modules"))
     cs.append(Campaign("arbitrary-strings", _hyp, "hypothesis", bounds="<=7 tokens from all platforms' hosts/routes/queries + random text, through every function of the six modules"))
